@@ -270,9 +270,16 @@ def first_diff(a, b):
 
 
 def run(ctx):
-    for m, g in C.pairs(ctx):
+    for m, g in C.pairs(ctx, include_noop=True):
         ctx.program(m.key)
         check_item(ctx, m, g)
+        st = C.generated_statics(g)
+        ctx.inst("C13.no-generated-static", distinct=m.key)
+        if st:
+            ctx.violation("C13.no-generated-static", [m.crate_key, "::".join(m.modpath + [m.name]), "static"], C.where(m),
+                          "the macro output defines no `static` beyond the input's (expansion is a pure function of the input; statics in generic impls are shared by all instantiations)", st, STATEMENT)
+        if m.noop:
+            ctx.tag("contract.with-macro-argument")
     grules.rule_g3(ctx)
     # positive fixture for G3 (expected count on the tree is zero)
     fctx = check.Ctx("C13-fixture", ctx.tier, ctx.seed)
